@@ -95,8 +95,15 @@ def gen_addr(rng: random.Random, n: int, shift: int) -> int:
     return rng.randrange(0, TOP - 0x300)
 
 
+# lengths a chunking / buffering implementation reacts to: powers of two, their multiples and neighbours,
+# also as the last piece of a split block
+ROUND_LENGTHS = [255, 256, 257, 4095, 4096, 4097, 8191, 8192, 8193, 16383, 16384, 16385, 32767, 32768, 32769, 49152, 65535 + 4096, 65535 + 16384, 65535 + 32768, 131072, 2 * 65535 + 16384]
+
+
 def gen_len(rng: random.Random, allow_big: bool) -> int:
     r = rng.random()
+    if r < 0.08:
+        return rng.choice(ROUND_LENGTHS if allow_big else ROUND_LENGTHS[:15])
     if r < 0.35:
         return rng.choice(BOUNDARY_LENGTHS if allow_big else BOUNDARY_LENGTHS[:4])
     if r < 0.75:
@@ -156,6 +163,9 @@ def gen_case(cseed: int, tier: str) -> dict[str, Any]:
         "short_writes": k.getrandbits(32) if k.random() < 0.5 else None,
         "fault": None,
     }
+    if k.random() < 0.15:
+        # the embedding application has configured logging (what --verbose / basicConfig(level=DEBUG) does)
+        case["log_level"] = k.choice([10, 10, 20, 0])
     if w.random() < 0.3:
         by = []
         for _ in range(w.randrange(1, 4)):
@@ -234,6 +244,11 @@ def _child(root: str, case: dict[str, Any]) -> dict[str, Any]:
             faults.append({"op": "write", "role": "out_ips", "nth": case["fault"]["nth"], "errno": case["fault"]["errno"]})
         env = simenv.SimEnv(root, {"out.ips": "out_ips"}, knobs, faults)
     res: dict[str, Any] = {"verdicts": [], "refused_at": None, "fault_in_call": None, "swallowed": False, "harness_phase_fault": False}
+    if case.get("log_level") is not None:
+        import logging
+
+        logging.getLogger().addHandler(logging.NullHandler())
+        logging.getLogger().setLevel(case["log_level"] or logging.NOTSET + 1)
     cap = core.Capture()
     with cap:
         if env is not None:
